@@ -118,4 +118,44 @@ let () =
             (sessions_s proto st.store) (dp_s st.dp) (free_s c st 0) (free_s c st 1) (free_s c st 2) in
         print_endline (String.concat " | " (List.rev (fin :: !outs)))
       with e -> print_endline ("modelerror " ^ Printexc.to_string e))
+    | "ow" :: ops ->
+      (* direct OrderedWriter cases: one single-key model instance per key *)
+      (try
+        let tbl : (string, owk) Hashtbl.t = Hashtbl.create 7 in
+        let get k = try Hashtbl.find tbl k with Not_found -> ow_init in
+        let keys = ref [] in
+        let note k = if not (List.mem k !keys) then keys := k :: !keys in
+        let log = ref [] and issues = ref [] in
+        List.iter (fun o ->
+          match String.split_on_char ':' o with
+          | [("pa" | "ps") as kind; k; v] ->
+            note k; let w = get k in
+            issues := (kind, k, w.q_next) :: !issues;
+            Hashtbl.replace tbl k (ow_step w (OIssue (WPut (ni (int_of_string v)))))
+          | ["del"; k] ->
+            note k; let w = get k in
+            issues := ("del", k, w.q_next) :: !issues;
+            Hashtbl.replace tbl k (ow_step w (OIssue WDel))
+          | [("ok" | "err") as c; k] ->
+            note k; let w = get k in
+            let w' = ow_step w (OComplete (c = "ok")) in
+            (if List.length w'.q_log > List.length w.q_log then
+               match w'.q_log with
+               | (_, WPut v) :: _ -> log := (k ^ ":P" ^ si v) :: !log
+               | (_, WDel) :: _ -> log := (k ^ ":D") :: !log
+               | [] -> ());
+            Hashtbl.replace tbl k w'
+          | _ -> ()) ops;
+        let ks = List.sort compare !keys in
+        let sv = List.map (fun k -> k ^ ":" ^ (match (get k).q_val with Some v -> si v | None -> "-")) ks in
+        let inf = List.concat_map (fun k -> match (get k).q_infl with
+            | Some (_, WPut v) -> [k ^ ":P" ^ si v] | Some (_, WDel) -> [k ^ ":D"] | None -> []) ks in
+        let res = List.map (fun (kind, k, seq) ->
+            let r = List.find_opt (fun (s, _) -> int_of_n s = int_of_n seq) (get k).q_res in
+            match kind, r with
+            | "pa", Some (_, false) -> "E" | "pa", _ -> "-"
+            | _, Some (_, true) -> "ok" | _, Some (_, false) -> "err" | _, None -> "pend") (List.rev !issues) in
+        let j l = if l = [] then "-" else String.concat "," l in
+        Printf.printf "store=%s log=%s infl=%s res=%s\n" (j sv) (j (List.rev !log)) (j inf) (j res)
+      with e -> print_endline ("modelerror " ^ Printexc.to_string e))
     | _ -> print_endline "badline") cases
